@@ -341,7 +341,7 @@ def keywords(repo, bits):
 # ------------------------------------------------------------------------------------------------------------------
 
 def _production(src, name):
-    m = re.search(r"^%s:" % re.escape(name), src, re.M)
+    m = re.search(r"^%s\s*:" % re.escape(name), src, re.M)
     if not m:
         raise TranslateError("parser.y: production %s not found" % name)
     i, depth, start = m.end(), 0, m.end()
@@ -459,7 +459,36 @@ def grammar(repo):
     idp = [re.sub(r"\s+", " ", a) for a in _alternatives(_production(src, "Id"))]
     if idp != ["NonTypeId { strncpy($$, $1, MAXLEN); }", "T_TYPENAME { strncpy($$, $1, MAXLEN); }"]:
         raise TranslateError("parser.y: Id production changed: %r" % idp)
-    return {"levels": levels, "binary": binary, "unary": unary, "assign": assign, "nontype": nontype}
+    return {"levels": levels, "binary": binary, "unary": unary, "assign": assign, "nontype": nontype, "alias_ctx": alias_contexts(src)}
+
+
+ALIAS_TOKENS = ["T_KW_AND", "T_BOOL_AND", "T_KW_OR", "T_BOOL_OR", "T_KW_NOT", "T_EXCLAM"]
+
+
+def alias_contexts(src):
+    """every occurrence of an operator-alias token in ANY production of parser.y (not only `Expression`): for each token the sorted list
+    of contexts `LHS: alternative with the occurrence replaced by @`.  A nonterminal all of whose alternatives are single action-free
+    tokens (BoolOrKWAnd) is a token class: an occurrence of it counts for each of its members."""
+    rules = src.split("%%")[1]
+    names = re.findall(r"^([A-Za-z_][A-Za-z0-9_]*)\s*:", rules, re.M)
+    prods = {}
+    for n in names:
+        if n in prods:
+            continue
+        prods[n] = [re.sub(r"\s+", " ", a).strip() for a in _alternatives(_production(rules, n))]
+    classes = {n: alts for n, alts in prods.items() if alts and all(re.fullmatch(r"T_[A-Z_]+|'.'", a) for a in alts)}
+    ctx = {t: [] for t in ALIAS_TOKENS}
+    for n, alts in prods.items():
+        if n in classes:
+            continue
+        for a in alts:
+            syms = a.split(" ")
+            for i, sym in enumerate(syms):
+                members = classes.get(sym, [sym])
+                for t in ALIAS_TOKENS:
+                    if t in members:
+                        ctx[t].append("%s: %s" % (n, " ".join(syms[:i] + ["@"] + syms[i + 1:])))
+    return {t: sorted(v) for t, v in ctx.items()}
 
 
 # ------------------------------------------------------------------------------------------------------------------
@@ -567,6 +596,11 @@ def lean_text(repo):
     o.append("/-- alternatives of NonTypeId: token ↦ the spelling it stands for (none = the token's own text, i.e. T_ID) -/")
     o.append("def nonTypeId : List (TokId × Option (List Ch)) := [" +
              ", ".join("(%s, %s)" % (_ident(a), "none" if s is None else "some " + _chs(s)) for a, s in g["nontype"]) + "]")
+    o.append("/-- every occurrence of an operator-alias token in any production of parser.y: `LHS: alternative with the occurrence as @` -/")
+    o.append("def aliasContexts : List (TokId × List String) := [")
+    o.append(",\n".join("  (%s, [%s])" % (_ident(tk), ", ".join('"%s"' % c.replace("\\", "\\\\").replace('"', '\\"') for c in cs))
+                        for tk, cs in sorted(g["alias_ctx"].items())))
+    o.append("]")
     o.append("/-- `'(' Expression ')'` has no action (checked by the translator; any action there is a translation error) -/")
     o.append("def parenCallbacks : List Nat := []")
     o.append("")
